@@ -17,6 +17,7 @@
 package cron
 
 import (
+	"encoding/json"
 	"errors"
 	"fmt"
 	"github.com/Comcast/rulio/core"
@@ -71,7 +72,15 @@ func AddHooks(ctx *core.Context, cronner Cronner, state core.State) error {
 
 		core.Log(core.INFO|CRON, ctx, "addHook", "id", id, "location", location, "schedule", schedule)
 
-		event := fmt.Sprintf(`{"trigger!":"%s"}`, id)
+		// The id is the caller's string: it needs JSON escaping.
+		// Pasted between quotes, an id with a quote made this
+		// event invalid JSON, and an id like `tick\u0041` made
+		// it the trigger of another rule ("tickA").
+		js, err := json.Marshal(map[string]string{"trigger!": id})
+		if err != nil {
+			return err
+		}
+		event := string(js)
 
 		se := &ScheduledEvent{
 			Id:       id,
